@@ -44,7 +44,7 @@ MANIFEST = {
     'technique': 'runtime law monitor: icontract post-conditions (decode(encode(x))==x, a==b => hash/index alike) attached from the harness to the real registry classes, plus explicit re-encode / index-separation / render-determinism comparisons, over text-parsed, factory-built and corpus-decoded objects; second process with another PYTHONHASHSEED for renderings',
     'text': 'Seeded exploration per registry entry (23 NLRI keys, 22 attribute codes, extended community and BGP-LS TLV registries). '
     'Held means no law was violated on the objects generated; registry entries with zero evaluations are listed as not exercised and are outside the claim.',
-    'note': 'oracle is the law itself on the real objects (no reference decoder); == is ExaBGP own; canonical = produced by ExaBGP encoder; labels excluded from index separation',
+    'note': 'every two distinct objects of one class are compared (an __eq__ which leaves a field out makes neighbours equal and is then held to L3); the repository own unit tests are run in a child pytest with the contracts attached in record-only mode (L3 verdicts, L1 listed); oracle is the law itself on the real objects (no reference decoder); == is ExaBGP own; canonical = produced by ExaBGP encoder; labels excluded from index separation',
 }
 SHARD_TIMEOUT = {'quick': 240, 'thorough': 1500}
 
